@@ -10,7 +10,7 @@ def events_of(trace, label):
     return [t[2] for t in trace if t[0] == 'event' and t[1] == label]
 
 
-def check_call(trace, expected_fault, user_returned_normally, user_reachable):
+def check_call(trace, expected_fault, user_returned_normally, user_reachable, failing=None):
     """Returns a list of (clause, ok, detail).
 
     expected_fault: the scenario ends in a fault (malformed/unknown/invalid request, a raising
@@ -49,6 +49,20 @@ def check_call(trace, expected_fault, user_returned_normally, user_reachable):
         clause('%s_no_duplicates' % label, len(evs) == len(set(evs)), evs)
         it = iter(app)
         clause('%s_subsequence_of_app' % label, all(e in it for e in evs), (evs, app))
+        # once the method is known (method_call is fired with the descriptor set) every later event of the call reaches
+        # the service's and the method's managers too
+        if 'method_call' in app:
+            # (method_context_closed is an application-level event)
+            rest = [e for e in app[app.index('method_call'):] if e != 'method_context_closed']
+            if failing is not None:
+                # a listener of this event raised: the event need not reach the managers served after it
+                rest = [e for e in rest if e != failing[1]]
+                evs = [e for e in evs if e != failing[1]]
+            clause('%s_sees_the_call_from_method_call_on' % label, evs[-len(rest):] == rest if rest else True, (evs, rest))
+    m1, m2 = events_of(trace, 'method'), events_of(trace, 'method2')
+    if failing is not None and failing[0] == 'method':
+        m1 = [e for e in m1 if e != failing[1]]       # the first manager's listener raised: the event stops there
+    clause('every_manager_of_the_method_is_served', m1 == m2, (m1, m2))
     return out
 
 
